@@ -69,6 +69,12 @@ sequences mix them with catalogue rows.  Oracle (nothing new is demanded, the st
    the wait after the k-th failure is inside the documented window for k whatever the failure carries   keys delay/<...>/server-hint
    the class of a failure is the class of its status / body / cause chain whatever else it carries      keys <class keys>/server-hint
    (rate-limit / transient with a hint longer than the maximum: still retried, not given up; permanent with a hint: still raised at once)
+
+The caller's base delay and maximum ("never longer than THE maximum" when the maximum is not the default).  delay_ms_for_try, sleep_before_try and
+sync_sleep_before_try take base_delay_ms / max_delay_ms, and the repository's own callers use them (2 s / 15 s, max 5 s, base 5 s, base 10 ms); the retry loops only
+ever use the defaults, so sequences through the retry helpers cannot see a helper that drops, swaps or overrides what its caller passed.  Phase param calls the three
+helpers directly over a grid of (base, max) in every calling style, with the sleep primitives of utils.py recorded: exactly one sleep per call, inside the window
+computed from the caller's base, never above the caller's maximum.                                        keys delay/<...>/caller-parameters
 """
 import asyncio
 import errno
@@ -101,6 +107,9 @@ RULE = (
     'padded / lower-case form, Retry-After-Ms, x-ms-retry-after-ms, X-RateLimit-Reset[-After], RateLimit-Reset, RetryInfo.retryDelay and retry-after text in the body, a '
     'retry_after attribute; values from 0 s to 1 day), each as the 1st..8th failure, 2 and 7 times in a row, before plain failures, after a limited / rate-limit failure, '
     'through an async helper and the sync helper; phase random-hint: seeded sequences mixing hinted rows with catalogue rows (some raised in context modes). '
+    'phase param: delay_ms_for_try / sleep_before_try / sync_sleep_before_try for tries 0..40 over a 9 x 11 grid of caller-supplied (base_delay_ms, max_delay_ms) '
+    '(max below / at / just around / above the default, base above max, 1 ms .. 10^12 ms) in 9 calling styles (positional, keyword, reordered keywords, mixed, only max, '
+    'only base, defaults), jitter source at both extremes and seeded, asyncio.sleep / time.sleep inside utils.py recorded (waits <= 200 s also slept on the virtual clock). '
     'Distinct = (helper, sequence of catalogue names with raise mode and handled value, ambient handled value); non-trivial = at least one failure.'
 )
 ASSUMPTIONS = [
@@ -195,6 +204,23 @@ FLOORS = {
     'waits_after_server_hint[async,T,above-maximum]': 1800,
     'waits_after_server_hint[async,T,between-ceiling-and-maximum]': 350,
     'waits_after_server_hint[async,T,below-floor]': 760,
+    # delay helpers driven with the caller's base delay / maximum (a fixed grid: about half of what every run observes)
+    'param_delay_checked': 50000,
+    'param_delay_checked[delay_ms_for_try]': 32000,
+    'param_delay_checked[sleep_before_try]': 10000,
+    'param_delay_checked[sync_sleep_before_try]': 10000,
+    'param_call_styles': 27,
+    'param_grid_points': 50,
+    'param_caller_maximum_binding[delay_ms_for_try]': 21000,
+    'param_caller_maximum_binding[sleep_before_try]': 7000,
+    'param_caller_maximum_binding[sync_sleep_before_try]': 7000,
+    'param_caller_maximum_binding[max<default]': 25000,
+    'param_caller_maximum_binding[max>default]': 10000,
+    'param_caller_base_decides[delay_ms_for_try]': 7500,
+    'param_caller_base_decides[sleep_before_try]': 2500,
+    'param_caller_base_decides[sync_sleep_before_try]': 2500,
+    'param_base_above_maximum': 13000,
+    'param_sleeps_measured_on_virtual_clock': 9000,
 }
 
 MAX_MS = 60_000
@@ -1421,6 +1447,142 @@ def run(ctx):
             run_virtual(delay_main, start=0.0, max_steps=None)
         elif ctx.replay is None:
             ctx.count('delay_direct_checked', 0)
+
+        # ---- phase param: the delay helpers that take the CALLER's base delay and maximum ---------------------------------
+        # "never longer than the maximum" / "within the documented bounds" for callers that do not use the defaults (in the repository: compute_client
+        # 2 s / 15 s, resource_usage max 5 s, azure / hailctl base 5 s, hdinsight base 10 ms, copy.py).  The window of the wait for try k is
+        # [min(c/2, max), min(c, max)], c = base * 2^min(k, 30), with the caller's base and max -- whichever way they were passed.
+        param_replay = ctx.replay.get('witness') if ctx.replay is not None and isinstance(ctx.replay.get('witness'), dict) and 'param_fn' in ctx.replay['witness'] else None
+        if (ctx.replay is None and ctx.shard == 0) or param_replay is not None:
+            DEF_BASE, DEF_MAX = BASE_MS, MAX_MS
+            P_BASES = (1, 2, 7, 10, 999, 1_000, 2_000, 5_000, 10**6)
+            P_MAXES = (1, 5, 999, 5_000, 15_000, 59_999, 60_000, 60_001, 120_000, 10**9, 10**12)
+            # calling style -> (uses caller base, uses caller max, how to call)
+            STYLES = {
+                'positional': (True, True, lambda f, t, b, m: f(t, b, m)),
+                'keyword': (True, True, lambda f, t, b, m: f(tries=t, base_delay_ms=b, max_delay_ms=m)),
+                'keyword-reordered': (True, True, lambda f, t, b, m: f(max_delay_ms=m, tries=t, base_delay_ms=b)),
+                'positional-base-keyword-max': (True, True, lambda f, t, b, m: f(t, b, max_delay_ms=m)),
+                'tries-then-keywords': (True, True, lambda f, t, b, m: f(t, base_delay_ms=b, max_delay_ms=m)),
+                'max-only': (False, True, lambda f, t, b, m: f(t, max_delay_ms=m)),
+                'base-only': (True, False, lambda f, t, b, m: f(t, base_delay_ms=b)),
+                'base-only-positional': (True, False, lambda f, t, b, m: f(t, b)),
+                'defaults': (False, False, lambda f, t, b, m: f(t)),
+            }
+            REAL_SLEEP_UP_TO_S = 200.0  # waits up to this long are also really slept on the virtual clock (longer ones are only recorded: clock precision)
+            real_asyncio = u.asyncio
+
+            class AsyncioProxy:
+                """stands in for the `asyncio` module inside utils.py during this phase: sleep is recorded (and performed on the virtual clock when short)"""
+
+                def __init__(self):
+                    self.sleeps = []
+
+                async def sleep(self, delay, *a, **k):
+                    self.sleeps.append(delay)
+                    if isinstance(delay, (int, float)) and 0 <= delay <= REAL_SLEEP_UP_TO_S:
+                        await real_asyncio.sleep(delay)
+
+                def __getattr__(self, name):
+                    return getattr(real_asyncio, name)
+
+            def param_cases():
+                if param_replay is not None:
+                    w = param_replay
+                    yield w['param_fn'], w['style'], w['tries'], w['base'], w['max'], w['jitter']
+                    return
+                n = 0
+                for fn in ('delay_ms_for_try', 'sleep_before_try', 'sync_sleep_before_try'):
+                    for style, (ub, um, _) in STYLES.items():
+                        bases = P_BASES if ub else (DEF_BASE,)
+                        maxes = P_MAXES if um else (DEF_MAX,)
+                        for b in bases:
+                            for m in maxes:
+                                for t in range(0, 41):
+                                    n += 1
+                                    if fn == 'delay_ms_for_try':
+                                        for jm in ('lo', 'hi', 'seeded'):
+                                            yield fn, style, t, b, m, jm
+                                    else:
+                                        yield fn, style, t, b, m, ('lo', 'hi', 'seeded')[n % 3]
+
+            async def param_main(loop):
+                ap = AsyncioProxy()
+                sync_sleeps = []
+                u.asyncio = ap
+                u.time = types.SimpleNamespace(sleep=sync_sleeps.append, time=real_time.time, monotonic=real_time.monotonic, time_ns=real_time.time_ns)
+                try:
+                    for fn, style, t, b, m, jm in param_cases():
+                        ub, um, call = STYLES[style]
+                        eb, em = (b if ub else DEF_BASE), (m if um else DEF_MAX)  # what the caller asked for
+                        lo, hi = bounds_ms(t, eb, em)
+                        jit.mode = jm
+                        jit.rng = ctx.rng('param', fn, style, t, b, m)
+                        del ap.sleeps[:], sync_sleeps[:]
+                        problem = None
+                        waited_ms = None
+                        try:
+                            if fn == 'delay_ms_for_try':
+                                d = call(u.delay_ms_for_try, t, b, m)
+                                if not isinstance(d, int) or isinstance(d, bool):
+                                    problem = ('delay/not-an-integer', f'returned {d!r}')
+                                else:
+                                    waited_ms = d
+                            elif fn == 'sleep_before_try':
+                                t0 = loop.time()
+                                await call(u.sleep_before_try, t, b, m)
+                                if len(ap.sleeps) != 1 or sync_sleeps:
+                                    problem = ('delay/not-exactly-one-sleep', f'asyncio.sleep called with {ap.sleeps!r}, time.sleep with {sync_sleeps!r}')
+                                else:
+                                    waited_ms = ap.sleeps[0] * 1000.0
+                                    if ap.sleeps[0] <= REAL_SLEEP_UP_TO_S:
+                                        ctx.count('param_sleeps_measured_on_virtual_clock')
+                                        if abs((loop.time() - t0) - ap.sleeps[0]) > 1e-6:
+                                            problem = ('delay/clock-disagrees', f'asked to sleep {ap.sleeps[0]!r} s, {loop.time() - t0!r} s passed')
+                            else:
+                                call(u.sync_sleep_before_try, t, b, m)
+                                if len(sync_sleeps) != 1 or ap.sleeps:
+                                    problem = ('delay/not-exactly-one-sleep', f'time.sleep called with {sync_sleeps!r}, asyncio.sleep with {ap.sleeps!r}')
+                                else:
+                                    waited_ms = sync_sleeps[0] * 1000.0
+                        except Exception as e:  # noqa: BLE001
+                            problem = ('delay/helper-raised', f'raised {e!r}')
+                        ctx.count('param_delay_checked')
+                        ctx.count(f'param_delay_checked[{fn}]')
+                        ctx.seen('param_call_styles', f'{fn}:{style}')
+                        ctx.seen('param_grid_points', f'base={eb} max={em}')
+                        nondefault = (eb, em) != (DEF_BASE, DEF_MAX)
+                        c = eb * (1 << min(t, 30))
+                        if em != DEF_MAX and c > em:
+                            ctx.count(f'param_caller_maximum_binding[{fn}]')  # the caller's (non-default) maximum is what limits this wait
+                            ctx.count('param_caller_maximum_binding[max<default]' if em < DEF_MAX else 'param_caller_maximum_binding[max>default]')
+                            if min(c, DEF_MAX) != min(c, em):
+                                ctx.count(f'param_default_maximum_would_differ[{fn}]')
+                        if eb > em:
+                            ctx.count('param_base_above_maximum')
+                        if eb != DEF_BASE and c // 2 < em:
+                            ctx.count(f'param_caller_base_decides[{fn}]')
+                        if problem is None:
+                            tol = 1e-9 * max(1.0, float(hi))  # the sleeps are delay_ms / 1000.0: float round trip only
+                            sfx = '/caller-parameters' if nondefault else ''
+                            if waited_ms > em + tol:
+                                problem = (f'delay/above-maximum{sfx}', f'wait of {waited_ms!r} ms is longer than the caller\'s maximum {em}')
+                            elif waited_ms > hi + tol:
+                                problem = (f'delay/above-jitter-ceiling{sfx}', f'wait of {waited_ms!r} ms, documented window [{lo}, {hi}]')
+                            elif waited_ms < lo - tol:
+                                problem = (f'delay/below-jitter-floor{sfx}', f'wait of {waited_ms!r} ms, documented window [{lo}, {hi}]')
+                        ctx.case(sample={'fn': fn, 'style': style, 'tries': t, 'base': b, 'max': m}, key=('param', fn, style, t, b, m, jm), nontrivial=True)
+                        if problem is not None:
+                            ctx.violation(
+                                problem[0],
+                                f'{fn} [{style}] tries={t} base_delay_ms={eb} max_delay_ms={em} (jitter {jm}): {problem[1]}',
+                                witness={'param_fn': fn, 'style': style, 'tries': t, 'base': b, 'max': m, 'jitter': jm},
+                            )
+                finally:
+                    u.asyncio = real_asyncio
+                    u.time = real_time
+
+            run_virtual(param_main, start=0.0, max_steps=None)
     finally:
         u.random = real_random
         u.time = real_time
